@@ -2,6 +2,7 @@ import OpcuaModel.Base.Tactics
 import OpcuaModel.Model.Asym
 import OpcuaModel.Gen.Asym
 import OpcuaModel.Lemmas.Asym
+import OpcuaModel.Model.RsaRef
 /-
   C15 — asymmetric crypto is correct for all lengths and enforces key size limits.
 
@@ -183,6 +184,91 @@ theorem C15_sig_partial (S : IdealSig) (k k' r : Nat) (m m' : Bytes) :
     exact ⟨h1.symm, h2.symm⟩
   · rintro ⟨rfl, rfl⟩
     exact S.complete _ _ _
+
+/-! ### Stage 2: an executable reference for RSASSA-PKCS1-v1_5 verification
+     (`Model/RsaRef.lean`; the driver verifies the signatures the real code produces) -/
+section RsaRef
+open Opcua.RsaRef Opcua.CryptoRef
+
+/-- OS2IP ∘ I2OSP is reduction mod 256^k … -/
+theorem C15_os2ip_i2osp (x k : Nat) : os2ip (i2osp x k) = x % 256 ^ k := by
+  simp [os2ip, i2osp, leVal_leBytes]
+
+/-- … hence the identity for every integer that fits `k` octets (RFC 8017 §4.1/4.2) -/
+theorem C15_os2ip_i2osp_of_lt (x k : Nat) (h : x < 256 ^ k) : os2ip (i2osp x k) = x := by
+  rw [C15_os2ip_i2osp, Nat.mod_eq_of_lt h]
+
+/-- I2OSP ∘ OS2IP is the identity on octet strings (with their own length) -/
+theorem C15_i2osp_os2ip (b : Bytes) : i2osp (os2ip b) b.length = b := by
+  have := leBytes_leVal b.reverse
+  simp only [List.length_reverse] at this
+  simp [i2osp, os2ip, this]
+
+/-- OS2IP of `k` octets is below 256^k, and I2OSP yields exactly `k` octets -/
+theorem C15_os2ip_bound (b : Bytes) : os2ip b < 256 ^ b.length ∧ ∀ x k, (i2osp x k).length = k := by
+  refine ⟨?_, i2osp_length⟩
+  have h := C15_os2ip_i2osp (os2ip b) b.length
+  rw [C15_i2osp_os2ip] at h
+  rw [h]
+  exact Nat.mod_lt _ (Nat.pow_pos (by decide))
+
+/-- square-and-multiply computes the modular power -/
+theorem C15_modPow_correct (b e n : Nat) : modPow b e n = b ^ e % n := by
+  unfold modPow
+  rw [modPowAux_spec, Nat.one_mul, ← Nat.pow_mod]
+
+/-- EMSA-PKCS1-v1_5: the encoded message has exactly `k` octets and the shape
+    `00 01 FF…FF 00 ‖ DigestInfo prefix ‖ digest` with at least 8 padding octets;
+    it is refused exactly when `k < |T| + 11` -/
+theorem C15_emsa_structure (h : HashAlg) (d : Bytes) (k : Nat) :
+    (emsaOfDigest h d k = none ↔ k < (digestInfoPrefix h ++ d).length + 11) ∧
+    ∀ em, emsaOfDigest h d k = some em →
+      em.length = k ∧
+      ∃ ps, 8 ≤ ps ∧ ps + (digestInfoPrefix h ++ d).length + 3 = k ∧
+        em = 0x00 :: 0x01 :: (List.replicate ps 0xff ++ 0x00 :: (digestInfoPrefix h ++ d)) := by
+  unfold emsaOfDigest
+  by_cases hk : k < (digestInfoPrefix h ++ d).length + 11
+  · rw [if_pos hk]
+    exact ⟨⟨fun _ => hk, fun _ => rfl⟩, fun em hem => by cases hem⟩
+  · simp only [hk, if_false]
+    refine ⟨by simp, ?_⟩
+    intro em hem
+    simp only [Option.some.injEq] at hem
+    subst hem
+    refine ⟨?_, k - (digestInfoPrefix h ++ d).length - 3, by omega, by omega, rfl⟩
+    simp only [List.length_cons, List.length_append, List.length_replicate] at hk ⊢
+    omega
+
+/-- the DigestInfo prefixes end with the digest length of their hash -/
+theorem C15_digestinfo_prefixes :
+    (digestInfoPrefix .sha1).length = 15 ∧ (digestInfoPrefix .sha256).length = 19 ∧
+    (digestInfoPrefix .sha1).getLast? = some (UInt8.ofNat HashAlg.sha1.outLen) ∧
+    (digestInfoPrefix .sha256).getLast? = some (UInt8.ofNat HashAlg.sha256.outLen) := by
+  decide
+
+/-- the executable verifier is RFC 8017 §8.2.2 in terms of the mathematical
+    power: right length, representative below the modulus, and
+    `I2OSP(s^e mod n, k) = EMSA-PKCS1-v1_5(msg, k)` -/
+theorem C15_rsaVerify_spec (n e : Nat) (h : HashAlg) (msg sig : Bytes) :
+    rsaVerifyPkcs1v15 n e h msg sig = true ↔
+      sig.length = byteLen n ∧ os2ip sig < n ∧
+      ∃ em, emsa h msg (byteLen n) = some em ∧ i2osp (os2ip sig ^ e % n) (byteLen n) = em := by
+  unfold rsaVerifyPkcs1v15
+  by_cases hl : sig.length = byteLen n
+  · by_cases hn : os2ip sig ≥ n
+    · have : ¬ os2ip sig < n := by omega
+      simp [hl, hn, this]
+    · have hlt : os2ip sig < n := by omega
+      cases hem : emsa h msg (byteLen n) with
+      | none => simp [hl, hn, hem]
+      | some em => simp [hl, hn, hlt, hem, C15_modPow_correct]
+  · simp [hl]
+
+/-- non-vacuity of the arithmetic: a textbook value -/
+example : modPow 4 13 497 = 445 ∧ os2ip [0x01, 0x00, 0x01] = 65537 ∧ i2osp 65537 4 = [0, 1, 0, 1] ∧ byteLen 65537 = 3 := by
+  refine ⟨by rw [C15_modPow_correct], by decide, by decide, by decide⟩
+
+end RsaRef
 
 /-! ### Non-vacuity -/
 
